@@ -396,12 +396,19 @@ theorem invalidate_good (s : St) (d : Nat) : Good s (invalidate s d).1 := by
     (Good.trans (Good.of_eps (s := (epochCounter s d).1) (s' := bumpEpoch (epochCounter s d).1 (epochCounter s d).2) rfl rfl) ?_)
   exact foldl_good retire retire_good _ _
 
+theorem clearIndex_good (s : St) : Good s (clearIndex s) := by
+  refine ⟨?_, Nat.le_refl _, ?_⟩
+  · intro h e he; exact h e he
+  · intro e _; exact ⟨id, id, rfl, rfl⟩
+
 theorem reset_good (n : Nat) (s : St) : Good s (reset n s) := by
   unfold reset
-  refine Good.trans (foldl_good resetOne ?_ (pooled s n) s) (Good.of_eps rfl rfl)
+  refine Good.trans (foldl_good resetOne ?_ (pooled s n) s) (Good.trans (clearIndex_good _) (Good.of_eps rfl rfl))
   intro t ke
   unfold resetOne
-  exact Good.trans (Good.setPool _ _ _) (Good.closeEp _ _)
+  split
+  · exact Good.trans (Good.setPool _ _ _) (Good.closeEp _ _)
+  · exact Good.refl t
 
 theorem track_good (s : St) (e j : Nat) : Good s (track s e j) := by
   unfold track
@@ -440,12 +447,22 @@ theorem step_good (s : St) (op : Op) : Good s (step s op) := by
     exact Good.trans (Good.trans (dropStale_good s k) (Good.trans (epochCounter_good _ d) (acquireTicket_good _ drain)))
       (Good.of_eps rfl rfl)
   | publish E =>
-    show Good s (if E.closed = false ∧ E.connCloses = 0 then publishEp s E else s)
+    show Good s (if E.closed = false ∧ E.connCloses = 0 ∧ E.tuples = [] then publishEp s E else s)
     split
     · rename_i h
       -- same endpoint table as `allocEp`, only the dial counter differs
-      exact Good.trans (allocEp_good s E h.1 h.2) (Good.of_eps (s := allocEp s E) (s' := publishEp s E) rfl rfl)
+      exact Good.trans (allocEp_good s E h.1 h.2.1) (Good.of_eps (s := allocEp s E) (s' := publishEp s E) rfl rfl)
     · exact Good.refl s
+  | register e =>
+    show Good s (register s e)
+    unfold register
+    split
+    · exact Good.setEp s e _ rfl rfl rfl rfl id
+    · exact Good.trans (Good.setEp s e { (s.eps e) with registered := true } rfl rfl rfl rfl id) (retire_good _ e)
+  | transportDone d =>
+    show Good s (transportDone s d)
+    unfold transportDone
+    exact Good.trans (foldl_good retire retire_good _ _) (Good.of_eps rfl rfl)
 
 theorem run_good : ∀ (ops : List Op) (s : St), Good s (run s ops) := by
   intro ops
